@@ -106,6 +106,13 @@ def case(draw):
             w2 = draw(st.sampled_from([w for w in words if w != w0]))
             front = [{'name': extra[0]['name'].upper(), 'match': ['and', [['match', 'contains', None, w2], ['not', ['match', 'contains', None, w0]]]], 'category': 'Bills & Utilities',
                       'subcategory': 'Upper', 'merchant': None, 'priority': 99, 'tags': [], 'lets': [], 'fields': []}]
+        used = {e['match'][3] for e in extra}
+        free = [w for w in words if w not in used]
+        if free and draw(st.integers(0, 2)) == 0:
+            # a rule that also tests WHICH source the row came from: explain and discover must classify under the source's configured name, as `up` does
+            nm = draw(st.sampled_from(sorted({s_['layout']['source'] for s_ in b['sources']})))
+            extra = extra + [{'name': 'Card Only', 'match': ['and', [['match', 'contains', None, draw(st.sampled_from(free))], ['cmp', ['name', 'source'], [['==', ['str', nm]]]]]],
+                              'category': 'Shopping', 'subcategory': 'Card Only', 'merchant': None, 'priority': None, 'tags': [], 'lets': [], 'fields': []}]
         b = dict(b, rf=dict(rf, rules=front + rf['rules'] + extra))
     if b['rules_kind'] == 'csv':
         # sub-check (b) can only state description and amount: keep amount modifiers only
